@@ -256,3 +256,11 @@ Theorem fees_vq_zero_weights : forall p s pr n vs,
   /\ fst (fees_vq p s pr n vs) = ROk.
 Proof. exact fees_vq_zero_weights_l. Qed.
 Print Assumptions fees_vq_zero_weights.
+
+(* ---- withdrawals with source = caller (also for accounts with a withdraw hook, i.e. vaults,
+   and whatever the hook answers): rejected, nothing changes ---- *)
+Theorem withdraw_self_noop : forall p s a amt hook_ok gas_ok,
+  (fst (withdraw_op p s a a amt gas_ok) <> ROk /\ snd (withdraw_op p s a a amt gas_ok) = s) /\
+  (fst (withdraw_hooked p s a a amt hook_ok gas_ok) <> ROk /\ snd (withdraw_hooked p s a a amt hook_ok gas_ok) = s).
+Proof. exact withdraw_self_noop_l. Qed.
+Print Assumptions withdraw_self_noop.
